@@ -67,7 +67,14 @@ Theorem C09_pass_refines (R : rcfType) B n (Eb : seq (seq (seq R))) (sf t : seq 
       cv_of B w = NipalsSpec.normalize (mx_of B n TT *m cv_of n t)%R &
       cv_of n t_new = ((mx_of B n TT)^T *m NipalsSpec.normalize (mx_of B n TT *m cv_of n t))%R].
 Proof. exact: cpca_pass_from_block_scores. Qed.
+(* ... and that matrix form is the super score of the step theorem: with TT the B x n matrix whose rows are the block scores
+   tb_b, t_new (sum over blocks) = TT' * normalised (TT t), whenever t't > 0 *)
+Theorem C09_pass_is_the_spec_step (R : rcfType) (n B : nat) (mb : 'I_B -> nat) (X : forall b : 'I_B, 'M[R]_(n, mb b)) (sf : 'I_B -> R) (t : 'cV[R]_n) :
+  (0 < CpcaSpec.dot t t)%R ->
+  CpcaSpec.t_new X sf t = ((tbm X sf t)^T *m NipalsSpec.normalize (tbm X sf t *m t))%R.
+Proof. exact: pass_is_spec_step. Qed.
 Print Assumptions C09_step_equivalence.
 Print Assumptions C09_block_scores_refine.
 Print Assumptions C09_pass_refines.
+Print Assumptions C09_pass_is_the_spec_step.
 Print Assumptions C09_block_residual_decreases.
